@@ -27,10 +27,10 @@ RULE = (
     'feature]} x disable_version_checks x bypass source {none, admin comment'
     ' through the real handle_comments, pr_author_options, command line, '
     'admin comment bypassing ANOTHER check} x 5 cascades (quick: 1 of the 5 '
-    'per case, rotating); for ticketless names additionally targets that '
+    'per case, rotating with the seed); for ticketless names additionally targets that '
     'accept ticketless pull requests {none, last only, all}. Part V (version'
     ' equality), complete product: every cascade of the C09 pool (distinct '
-    'expected-version lists; quick: every 5th) x every subset of a 6-version '
+    'expected-version lists; quick: every 5th, offset by the seed) x every subset of a 6-version '
     'fixVersions universe {first expected, the other expected ones (or a '
     'neighbour version when there is only one), wrong version, suffixed, '
     'x.y.z.0, x.y.z.1} x source {TEST-1, test-1, feature/TEST-1} x '
@@ -44,9 +44,9 @@ ASSUMPTIONS = [
     'a ticket is KEY-digits right after "prefix/" (USER_DOC: "The ticket id '
     'must follow the prefix, for example feature/KEY-1234-xxx")',
     'no issue types configured (prefixes empty) = type check switched off',
-    'EITHER cells (non-hotfix target only): a four-component version in '
-    'fixVersions, x.y.z.0 or x.y.z.n (the statement says "suffixed versions '
-    'ignored" and does not say whether hotfix versions are suffixed)',
+    'EITHER cells (non-hotfix target only): x.y.z.0 in fixVersions. Hotfix '
+    'versions x.y.z.n (n >= 1) in fixVersions count as suffixed versions of '
+    'x.y.z and are ignored for a non-hotfix target',
     'allow_ticketless_pr is False on every branch class of this tree; the '
     'clause "mandatory as soon as one target does not accept ticketless pull'
     ' requests" is exercised by setting the attribute on the real target '
@@ -89,6 +89,7 @@ G_CASCADES = (
 _TICKET = re.compile(r'^([A-Za-z0-9_]+)-([0-9]+)')
 _FOUR = re.compile(r'^\d+\.\d+\.\d+\.\d+$')
 _THREE = re.compile(r'^\d+\.\d+\.\d+$')
+_ZERO = re.compile(r'^\d+\.\d+\.\d+\.0$')
 
 
 def ticket_of(src):
@@ -129,9 +130,10 @@ def oracle(case, expected_versions):
     if len(exp) == 1 and _FOUR.match(exp[0]):
         # hotfix target: the hotfix version must be listed
         return ('pass' if exp[0] in versions else 'IncorrectFixVersion'), False
-    if any(_FOUR.match(v) for v in versions):
+    if any(_ZERO.match(v) for v in versions):
         return 'either', True
-    plain = set(v for v in versions if _THREE.match(v))  # suffixed: ignored
+    # suffixed versions (x.y.z_hf7, hotfix versions x.y.z.n) are ignored
+    plain = set(v for v in versions if _THREE.match(v))
     return ('pass' if plain == set(exp) else 'IncorrectFixVersion'), False
 
 
@@ -223,6 +225,7 @@ def evaluate(case, cascade):
             if key:
                 ScriptedJira.db[key] = (case['issue'][0],
                                         list(case['issue'][1]))
+        git_calls = c09.FakeRepo.calls
         try:
             jmod.jira_checks(job)
             got = 'pass'
@@ -230,6 +233,8 @@ def evaluate(case, cascade):
             got = type(e).__name__
         except Exception as e:  # an outcome, compared with the statement
             got = 'exc:%s' % type(e).__name__
+        if c09.FakeRepo.calls != git_calls or pr.posted:
+            got += '+repository-or-pull-request-touched'
     finally:
         if case['bypass'] == 'cmdline':
             stubs.reset_cmdline_options()
@@ -264,7 +269,7 @@ def check(case, cascade, acc, cls):
                   and key is not None and case['issue'] is not None)
     cls['want_' + want] += 1
     if either:
-        cls['either_four_component_version'] += 1
+        cls['either_xyz0_in_fixversions'] += 1
         cls['either_got_' + got] += 1
     sample = None
     if acc.evaluations % 9973 == 0:
@@ -339,7 +344,7 @@ def shard_fn(ctx, shard, acc):
                                     idx += 1
                                     if idx % step != lo:
                                         continue
-                                    cs = [idx % 5] if quick else range(5)
+                                    cs = [(idx + ctx['seed']) % 5] if quick else range(5)
                                     for ci in cs:
                                         g_group(acc, cls, ci, dict(
                                             src=src, ticketless=tl,
@@ -350,7 +355,7 @@ def shard_fn(ctx, shard, acc):
         _, lo, step = shard
         pool = c09.wellformed_pool()
         if quick:
-            pool = pool[::5]
+            pool = pool[ctx['seed'] % 5::5]
         for pi in range(lo, len(pool), step):
             spec = pool[pi]
             for src in (SOURCES[0], SOURCES[1], SOURCES[3]):
